@@ -101,6 +101,11 @@ def run(tier):
                                                          ".".join(map(str, fails))),
                          case="kundur/kundur_full.json", family="trip", segs=[1.2], fail=fails, tds=tds,
                          events=[dict(add="Toggle", model="Line", dev="Line_8", t=0.5)]))
+    # a step that was clipped to an event time (0.1, 0.2, then 0.25) or to the end time fails and is retried: the time is given back
+    for fails, tfin in (([4], 0.6), ([5], 0.6), ([4, 5], 0.6), ([10], 0.6), ([3, 9], 0.6)):
+        real.append(dict(sid="clipped-and-rejected[fail=%s|tf=%g]" % (".".join(map(str, fails)), tfin), case="kundur/kundur_full.json", family="trip",
+                         segs=[tfin], fail=fails, tds=dict(tstep=0.1, fixt=1, shrinkt=1, no_tqdm=1),
+                         events=[dict(add="Toggle", model="Line", dev="Line_8", t=0.25)]))
     real += tdsfam.time_constant_scenarios() + tdsfam.tiny_step_scenarios()
     # disturbances that drive anti-windup limiters to a limit and let them come back (the integrator is told which states are
     # pegged by the limiters; a state that is free again must follow its equation from that step on)
